@@ -84,6 +84,29 @@ CLAIMED = {
         "independent parsers in props/c12.py; read support taken from the Coverage object handed to the writer",
         "DESIGN.md section 4 C12",
     ),
+    "C08": (
+        "post-load monitor: every loaded variant applied to the genome-oriented reference vs the written variant applied to the RefSeq; wrapper around the realigner's Variant(...)",
+        "After Gene(...) for all 38 shipped databases x 2 builds (exhaustive) and generated databases (either strand, "
+        "I/D alignment strings, every variant kind, variants on region ends), each loaded variant is applied to the "
+        "genome-oriented lookup sequence, oriented to the gene's strand and compared with the written variant applied to "
+        "the RefSeq; reference alleles, key positions, mutual inverse of the maps, RefSeq notation, lookup sequence vs "
+        "truth genome are checked; the arguments handed to indelpost's Variant and the long-read equivalence table "
+        "are captured by a wrapper and interpreted against the same haplotype.",
+        "sequence model ref/catalogue.py; written insertion = after the given RefSeq base; toy test database excluded (inconsistent)",
+        "DESIGN.md section 4 C08",
+    ),
+    "C09": (
+        "post-load monitor: loaded catalogue vs independent model rebuilt from the YAML, both builds",
+        "After Gene(...) for all 38 shipped databases x 2 builds (exhaustive) and generated databases (duplicates, name and "
+        "label collisions, cross-number duplicates, fusions with/without own core variants, custom deletions, zero-length "
+        "regions, variants on region ends) every database allele is looked up by name and its content compared with the "
+        "entry; major alleles pairwise distinct in (structure, core set); functional/silent split; minors distinct; "
+        "configurations exist and have the vectors the fusion/deletion entries imply; region lookup and copy test at all "
+        "region ends; fusion partials = parent's variants in retained regions; the two builds' catalogues are compared in "
+        "RefSeq notation.",
+        "YAML model ref/catalogue.py; function-altering = effect field present on the variant's first occurrence",
+        "DESIGN.md section 4 C09",
+    ),
 }
 
 NOT_YET = {}
